@@ -607,7 +607,12 @@ func (s *Translator) buildInlineProjection(part *QueryPart) (pgsql.Select, error
 	// If there's a projection frame set, some additional negotiation is required to identify which frame the
 	// from-statement should be written to. Some of this would be better figured out during the translation
 	// of the projection where query scope and other components are not yet fully translated.
-	if part.projections.Frame != nil && !part.projections.Frame.Synthetic {
+	//
+	// A query part that starts with UNWIND and has no earlier part projects from its own frame: that frame is
+	// the CTE being defined here, not a source to read from.
+	ownFrameOnly := part.projections.Frame == part.Frame && part.Frame != nil && part.Frame.Previous == nil
+
+	if part.projections.Frame != nil && !part.projections.Frame.Synthetic && !ownFrameOnly {
 		// Look up to see if there are CTE expressions registered. If there are then it is likely
 		// there was a projection between this CTE and the previous multipart query part
 		hasCTEs := part.Model.CommonTableExpressions != nil && len(part.Model.CommonTableExpressions.Expressions) > 0
